@@ -191,6 +191,12 @@ func runJailProbeJob(j *Job, res *JobResult) {
 		_ = os.MkdirAll("/w/.rocanary", 0o755)
 		_ = os.WriteFile("/w/.rocanary/secret", []byte("CANARY-outside-the-readonly-root"), 0o644)
 		_ = os.Symlink("../../../../w/.rocanary", top+"/root/sub/up")
+		// a second mount of the same file system whose own flag stays read-write: it is read-only only as long as
+		// the file system is
+		_ = os.MkdirAll(top+"2", 0o755)
+		if err := unix.Mount(top, top+"2", "", unix.MS_BIND, ""); err == nil {
+			defer jpUnmountAll(top + "2")
+		}
 		if err := unix.Mount("", top, "", unix.MS_REMOUNT|unix.MS_RDONLY, ""); err != nil {
 			skip("readonly", err)
 			return
@@ -207,6 +213,60 @@ func runJailProbeJob(j *Job, res *JobResult) {
 				prob("C07 read-only root: chrooted tar of %s/root (on a read-only mount) with include %q archived the name or content of /w/.rocanary/secret, which lies outside the root", top, inc)
 				break
 			}
+		}
+		// the calls above and an extraction attempt must leave the mount as read-only as it was, for everybody
+		_ = chrootarchive.UntarUncompressed(bytes.NewReader(small), top+"/root", nil)
+		if err := os.WriteFile(top+"/root/jp-written-after", []byte("x"), 0o644); err == nil {
+			prob("C13 read-only root: after chrooted tar/untar calls on a root that lies on a read-only mount (%s) the rest of the process can write to that mount: it is no longer read-only", top)
+		}
+		if err := os.WriteFile(top+"2/root/jp-written-after", []byte("x"), 0o644); err == nil {
+			prob("C13 read-only root: after chrooted tar/untar calls on a root that lies on a read-only file system (%s) the rest of the process can write to it through its other mount %s2: the file system is no longer read-only", top, top)
+		}
+		if mi, err := os.ReadFile("/proc/self/mountinfo"); err == nil {
+			for _, l := range strings.Split(string(mi), "\n") {
+				f := strings.Fields(l)
+				if len(f) < 7 || f[4] != top {
+					continue
+				}
+				super := f[len(f)-1]
+				if !strings.HasPrefix(f[5], "ro") || !(super == "ro" || strings.HasPrefix(super, "ro,")) {
+					prob("C13 read-only root: the mount %s was read-only before the chrooted calls; its options are now %q, those of its file system %q", top, f[5], super)
+				}
+			}
+		}
+	}()
+	// ---- mountroot: the root is itself a mount point (a volume, a tmpfs): the jail is still a jail — an archive
+	//      that reaches for "/" through a link of its own lands inside the root, not in the process's "/"
+	func() {
+		const top = "/w/.mr"
+		_ = os.MkdirAll(top, 0o755)
+		if err := unix.Mount("tmpfs", top, "tmpfs", 0, "size=4m,mode=0755"); err != nil {
+			skip("mountroot", err)
+			return
+		}
+		defer jpUnmountAll(top)
+		defer os.Remove("/jp-mr-canary")
+		var buf bytes.Buffer
+		tw := tar.NewWriter(&buf)
+		_ = tw.WriteHeader(&tar.Header{Name: "esc", Typeflag: tar.TypeSymlink, Linkname: "/", Mode: 0o777})
+		_ = tw.WriteHeader(&tar.Header{Name: "esc/jp-mr-canary", Typeflag: tar.TypeReg, Mode: 0o644, Size: 1})
+		_, _ = tw.Write([]byte("z"))
+		_ = tw.Close()
+		out.Ran = append(out.Ran, "mountroot")
+		for _, call := range []string{"untar", "layer"} {
+			var err error
+			if call == "untar" {
+				err = chrootarchive.UntarUncompressed(bytes.NewReader(buf.Bytes()), top, nil)
+			} else {
+				_, err = chrootarchive.ApplyUncompressedLayer(top, bytes.NewReader(buf.Bytes()), nil)
+			}
+			if _, e := os.Lstat("/jp-mr-canary"); e == nil {
+				prob("C01 mount-point root: chrooted %s into %s (a mount point; result %v) of an archive with a link esc -> / and a file esc/jp-mr-canary created /jp-mr-canary in the process's own root, outside the jail", call, top, err)
+				os.Remove("/jp-mr-canary")
+				break
+			}
+			os.Remove(top + "/jp-mr-canary")
+			os.Remove(top + "/esc")
 		}
 	}()
 	// ---- nilopts: calls with nil options are independent of each other (nothing a call writes into "its"
